@@ -180,7 +180,8 @@ def tlc(module, cfg, workers=8, env=None, timeout=1800, simulate=None, depth=Non
                 res.violation = m4.group(1)
             if "Error: Action property" in line or "Temporal properties were violated" in line:
                 res.violation = res.violation or "temporal"
-            if "POSTCONDITION" in line.upper() and "violated" in line.lower():
+            if ("POSTCONDITION" in line.upper() and ("violated" in line.lower() or "false" in line.lower())) \
+                    or '"REJECTED_AT"' in line or line.startswith('<<"REJECTED"'):
                 res.postcondition_failed = True
             if line.startswith("Error:"):
                 in_err = True
@@ -193,9 +194,12 @@ def tlc(module, cfg, workers=8, env=None, timeout=1800, simulate=None, depth=Non
     log(f"[tlc] {cfg}: {res.generated} generated, {res.distinct} distinct, {len(res.lines)} exported, "
         f"{res.wall:.1f}s, rc={p.returncode}" + (f", VIOLATION {res.violation}" if res.violation else ""))
     # rc 0 = ok; 12 = safety violation; 13 = liveness; 10/11 assumption/deadlock; others = tool trouble
-    if p.returncode not in (0, 12, 13) and not res.postcondition_failed:
+    if p.returncode not in (0, 10, 12, 13) and not res.postcondition_failed:
         log(res.error_text[-3000:] or open(outp).read()[-3000:])
         raise ToolError(f"TLC failed on {cfg} (rc={p.returncode})")
+    if p.returncode == 10 and not res.postcondition_failed and res.violation is None:
+        log(res.error_text[-3000:])
+        raise ToolError(f"TLC failed on {cfg} (rc=10, no postcondition marker)")
     if p.returncode == 12 and res.violation is None and not res.postcondition_failed:
         res.violation = "unknown"
     return res
